@@ -22,6 +22,21 @@ def is_int(b):
         return False
 
 
+def consistent_values(vals):
+    """True when cmp(a, b) = numeric if both integers else bytewise is transitive on vals."""
+    def lt(a, b):
+        if is_int(a) and is_int(b):
+            return int(a) < int(b)
+        return a < b
+    vs = list(set(vals))[:14]
+    for a in vs:
+        for b in vs:
+            for c in vs:
+                if lt(a, b) and lt(b, c) and not lt(a, c):
+                    return False
+    return True
+
+
 def restrict_cond(key, val):
     if key in ("uid", "length(name)"):
         return "%s = %s" % (key, val.decode()) if is_int(val) else None
@@ -64,6 +79,12 @@ class Check:
                 if pth not in have:
                     have.add(pth)
                     world["nodes"].append({"path": pth, "type": typ, **({"content": "x" * rng.choice([1, 10])} if typ == "file" else {})})
+        if rng.random() < 0.3:
+            t = tops[0]
+            for nm_ in rng.sample(["n1.2", "n2.10", "n3.9", "n4.100", "n5.txt", "n6", "n7.1a", "n8.03", "n9.2"], rng.choice([3, 5, 7])):
+                if t + "/" + nm_ not in have:
+                    have.add(t + "/" + nm_)
+                    world["nodes"].append({"path": t + "/" + nm_, "type": "file", "content": "x" * rng.choice([1, 10, 100])})
         keys = rng.sample(GKEYS, rng.choice([1, 1, 2, 2]))
         aggs = ["count(*)"] + rng.sample(AGGS[1:], rng.choice([1, 2, 4]))
         aggs = [a for a in AGGS if a in aggs]
@@ -155,6 +176,7 @@ class Check:
                 raise CaseInvalid("ungrouped aggregate row missing")
             arow = arow[0]
             reference = None
+            order_ref = None
             for pi, plan in enumerate(case["plans"]):
                 for seed in case["seeds"]:
                     p = copy.deepcopy(plan)
@@ -203,6 +225,16 @@ class Check:
                     if case["order"]:
                         oi = sel.index(case["order"]["key"])
                         vals = [row[oi] for row in rows]
+                        # the order of the ORDER BY key values must not depend on the hash seed or the arrival order.
+                        # Asserted when a pairwise "numeric if both are integers, else text" comparison is transitive on
+                        # the values present (otherwise no unique sorted order exists under any pairwise rule).
+                        if order_ref is None:
+                            order_ref = vals
+                        elif vals != order_ref and sorted(vals) == sorted(order_ref) and consistent_values(vals) and len(set(vals)) == len(vals):
+                            viols.append(Violation(PROP, "C08.sorted", ["C08.sorted", "order_depends_on_seed", case["order"]["key"].split("(")[0]],
+                                                   {"query": qg, "seed": seed, "env": pi, "values": [v.decode("utf-8", "replace") for v in vals][:12],
+                                                    "values_under_first_seed": [v.decode("utf-8", "replace") for v in order_ref][:12]}))
+                            return viols
                         if all(is_int(v) for v in vals):
                             tv = [int(v) for v in vals]
                         elif not any(is_int(v) for v in vals):
